@@ -89,7 +89,7 @@ def generate(rng, tier, focus, k=None):
     tr["exclude_bogus"] = rng.random() < 0.2
     tr["distractors"] = {"txt": rng.random() < 0.5, "absent_species": rng.random() < 0.5, "system_in_list": rng.random() < 0.5,
                          "start_coordinates": rng.random() < 0.5, "uppercase_ext": rng.random() < 0.2,
-                         "near_miss": rng.random() < 0.4}
+                         "near_miss": rng.random() < 0.4, "dotted_names": rng.random() < 0.3}
     tr["list_seed"] = rng.randrange(2 ** 31)
     tr["set_seeds"] = [rng.randrange(2 ** 31) for _ in range(3)]
     tr["hashseeds"] = [rng.randrange(1, 4000) for _ in range(2)]
@@ -273,7 +273,7 @@ def exec_equiv_shipped(trace, ctx):
 
 def build_candidates(trace, d):
     world = trace["world"]
-    paths = W.write_world(d, world)
+    paths = W.write_world(d, world, dotted=bool(trace["distractors"].get("dotted_names")))
     status = trace["status"]
     cands = []
     explicit = []
